@@ -397,10 +397,12 @@ func blsOracleSubset(all []uint16, completers []uint16, t int, shares map[uint16
 	if err := v.Init(pk0); err != nil {
 		return fmt.Sprintf("Verifier.Init: %v", err), 0
 	}
-	for di, dg := range [][]byte{sha([]byte("m")), r.Bytes(40)} {
+	buf := make([]byte, 0, 64)
+	for di, dg := range [][]byte{sha([]byte("m")), r.Bytes(32)} {
 		sigs := map[uint16][]byte{}
+		buf = append(buf[:0], dg...) // one buffer, overwritten for every message (see blsOracle)
 		for _, id := range completers {
-			sig, err := signers[id].Sign(nil, dg)
+			sig, err := signers[id].Sign(nil, buf)
 			if err != nil {
 				return fmt.Sprintf("party %d: Sign: %v", id, err), n
 			}
@@ -474,7 +476,7 @@ func runC05(t *testing.T, spec RunSpec) *RunResult {
 		d := NewDeployment(w, cfg.Deploy)
 		proxies := map[uint16]*kgProxy{}
 		d.WrapKG = func(node uint16, kg tss.KeyGenerator) tss.KeyGenerator {
-			if node == cfg.Culprit || cfg.Deploy.QuietLog {
+			if node == cfg.Culprit || cfg.Deploy.QuietRec {
 				return kg // (race-detector runs: no recording proxy, its lock would order the dispatcher goroutines)
 			}
 			p := &kgProxy{KeyGenerator: kg, node: node, w: w}
